@@ -55,9 +55,9 @@ fn run_generic(id: &'static str, tier: &str, seed: u64, threads: usize, historie
         run_sharded(n, threads, |i| f(seed, i, thorough))
     };
     let required: Vec<(&str, u64)> = match id {
-        "C10" => vec![("c10.cells", 1), ("c10.unauthorised_cells_rejected", 1), ("c10.principal_passes", 1), ("c10.token_address_change_rejected", 1), ("c10.state_class.evolved", 1), ("c10.state_class.transfer_completed", 1), ("c10.state_class.transfer_abandoned", 1), ("c10.state_class.registry_unset", 1), ("c10.all_privileged_variants_reached_by_principal", 1)],
+        "C10" => vec![("c10.cells", 1), ("c10.unauthorised_cells_rejected", 1), ("c10.principal_passes", 1), ("c10.token_address_change_rejected", 1), ("c10.state_class.evolved", 1), ("c10.state_class.transfer_completed", 1), ("c10.state_class.transfer_abandoned", 1), ("c10.state_class.registry_unset", 1), ("c10.state_class.only_bsei_token_registered", 1), ("c10.state_class.only_stsei_token_registered", 1), ("c10.all_privileged_variants_reached_by_principal", 1)],
         "C11" => vec![("c11.paused_cells", 1), ("c11.paused_cells_rejected", 1), ("c11.owner_update_params_while_paused", 1), ("c11.migrations", 1), ("c11.unpause_rejected_with_legacy_entries", 1), ("c11.auto_unpause_after_migration", 1), ("c11.twins_compared", 1), ("c11.twin_pause_windows", 1), ("c11.queries_while_paused", 1), ("c11.hook_cells_via_token_send", 1)],
-        _ => vec![("c20.updates_accepted", 1), ("c20.updates_rejected", 1), ("c20.hub_params_updates", 1), ("c20.dispatcher_config_updates", 1), ("c20.instantiates_rejected", 1), ("c20.threshold_clamped", 1), ("c20.stsei_denom_update_rejected", 1), ("c20.token_address_update_rejected", 1), ("c20.partial_updates_checked", 1)],
+        _ => vec![("c20.updates_accepted", 1), ("c20.updates_rejected", 1), ("c20.hub_params_updates", 1), ("c20.dispatcher_config_updates", 1), ("c20.instantiates_rejected", 1), ("c20.threshold_clamped", 1), ("c20.stsei_denom_update_rejected", 1), ("c20.token_address_update_rejected", 1), ("c20.first_token_registrations", 1), ("c20.partial_updates_checked", 1)],
     };
     finish(id, tier, seed, sum, &required, rule, t0, replay.is_some(), json!({}))
 }
@@ -565,7 +565,18 @@ fn c10_cells(w: &World, state_class: &'static str, samples: &[Sample], out: &mut
                 out.count("c10.unauthorised_cells_rejected");
             } else if al.is_some() {
                 // designated principal: must get past the sender check (anti-vacuity counter)
-                if s.must_fail {
+                // re-pointing a token address that is already registered must fail for everybody, the owner included;
+                // the first registration of a token (staged deployment) is the owner's right
+                let mut must_fail = s.must_fail;
+                if s.must_fail && s.contract == HUB && s.variant == "UpdateConfig" {
+                    if let Some(cfg) = &tokens_before {
+                        let m = String::from_utf8_lossy(s.msg.as_slice()).to_string();
+                        let touches_b = !m.contains("\"bsei_token_contract\":null");
+                        let touches_s = !m.contains("\"stsei_token_contract\":null");
+                        must_fail = (touches_b && cfg.bsei_token_contract.is_some()) || (touches_s && cfg.stsei_token_contract.is_some());
+                    }
+                }
+                if must_fail {
                     if r.ok {
                         out.violation("C10", "token_address_immutable", format!("[{}] {}::{} payload {} by {} succeeded although it must be rejected", state_class, s.contract, s.variant, s.payload, sender));
                         return;
@@ -583,7 +594,9 @@ fn c10_cells(w: &World, state_class: &'static str, samples: &[Sample], out: &mut
             if s.contract == HUB {
                 let after: Option<h::ConfigResponse> = c.q(HUB, &h::QueryMsg::Config {}).ok();
                 if let (Some(a), Some(b)) = (&tokens_before, &after) {
-                    if a.bsei_token_contract.is_some() && (a.bsei_token_contract != b.bsei_token_contract || a.stsei_token_contract != b.stsei_token_contract) {
+                    let b_changed = a.bsei_token_contract.is_some() && a.bsei_token_contract != b.bsei_token_contract;
+                    let s_changed = a.stsei_token_contract.is_some() && a.stsei_token_contract != b.stsei_token_contract;
+                    if b_changed || s_changed {
                         out.violation("C10", "token_address_immutable", format!("[{}] {} by {} changed a token address: {:?} -> {:?}", state_class, s.variant, sender, (a.bsei_token_contract.clone(), a.stsei_token_contract.clone()), (b.bsei_token_contract.clone(), b.stsei_token_contract.clone())));
                         return;
                     }
@@ -649,6 +662,16 @@ fn c10_world(seed: u64, index: u64, thorough: bool) -> HistoryReport {
     if let Ok(mut w) = build_world_with(&cfg, &WorldOpts { skip_registry: true, ..Default::default() }) {
         fund_everybody(&mut w);
         worlds.push(("registry_unset", w));
+    }
+    // staged deployments: only one of the two token addresses registered so far
+    for (class, o) in [
+        ("only_bsei_token_registered", WorldOpts { skip_stsei_token: true, ..Default::default() }),
+        ("only_stsei_token_registered", WorldOpts { skip_bsei_token: true, ..Default::default() }),
+    ] {
+        if let Ok(mut w) = build_world_with(&cfg, &o) {
+            fund_everybody(&mut w);
+            worlds.push((class, w));
+        }
     }
     for (class, w) in worlds.iter() {
         if !out.violations.is_empty() {
@@ -993,7 +1016,8 @@ fn c20_world(seed: u64, index: u64, _thorough: bool) -> HistoryReport {
     cfg.peg_recovery_fee = odd_decimal(&mut r);
     cfg.er_threshold = odd_decimal(&mut r);
     cfg.keeper_rate = odd_decimal(&mut r);
-    let built = build_world(&cfg);
+    let staged = WorldOpts { skip_bsei_token: r.chance(1, 4), skip_stsei_token: r.chance(1, 4), ..Default::default() };
+    let built = build_world_with(&cfg, &staged);
     let one = Decimal::one();
     let should_fail = cfg.peg_recovery_fee > one || cfg.keeper_rate > one;
     log.push(json!({"instantiate": {"peg_recovery_fee": cfg.peg_recovery_fee.to_string(), "er_threshold": cfg.er_threshold.to_string(), "keeper_rate": cfg.keeper_rate.to_string()}, "accepted": built.is_ok()}));
@@ -1089,6 +1113,19 @@ fn c20_world(seed: u64, index: u64, _thorough: bool) -> HistoryReport {
                 }
                 if b.is_some() || s.is_some() {
                     out.count("c20.token_address_update_attempts");
+                }
+                // staged deployment: the first registration of a token address is accepted, later ones never
+                if let Some(x) = &b {
+                    if rc.hub_cfg.bsei_token_contract.is_none() {
+                        ex.hub_cfg.bsei_token_contract = Some(x.to_lowercase());
+                        out.count("c20.first_token_registrations");
+                    }
+                }
+                if let Some(x) = &s {
+                    if rc.hub_cfg.stsei_token_contract.is_none() {
+                        ex.hub_cfg.stsei_token_contract = Some(x.to_lowercase());
+                        out.count("c20.first_token_registrations");
+                    }
                 }
                 let mask = (d.is_some() as u32) | (v.is_some() as u32) << 1 | (b.is_some() as u32) << 2 | (s.is_some() as u32) << 3 | (a.is_some() as u32) << 4 | (rwc.is_some() as u32) << 5 | (up.is_some() as u32) << 6;
                 (
